@@ -371,7 +371,7 @@ impl Check for C08 {
     }
     fn count(&self, tier: Tier) -> u64 {
         match tier {
-            Tier::Quick => 120_000,
+            Tier::Quick => 60_000,
             Tier::Thorough => 4_000_000,
         }
     }
